@@ -289,7 +289,9 @@ class FnAnalysis:
         if sels:
             from .terms import rebuild
             mp = {f[1]: f[2] for f in sels}
-            if any(x in mp for x in t.subterms()):
+            for _ in range(16):
+                if not any(x in mp for x in t.subterms()):
+                    break
                 t = rebuild(t, mp)
         if t.op == "okelse":
             r, a, b = t.args
@@ -806,6 +808,18 @@ class FnAnalysis:
     def calls(self):
         return [self.calls_by_block[b] for b in sorted(self.calls_by_block)]
 
+    def call_site_of(self, result):
+        """the call site that produced `result` (a Result/Option value, or its Ok/Some payload)"""
+        x = result
+        while x.op == "payload":
+            x = x.args[0]
+        for c in self.calls_by_block.values():
+            if c.result is x:
+                return c
+        if x.op == "fresh" and x.args[0][0] == self.fid:
+            return self.calls_by_block.get(x.args[0][1])
+        return None
+
     def return_blocks(self):
         return [b for b in self.rpo if self.blocks[b]["term"]["k"] == "return" and b in self.entry]
 
@@ -831,8 +845,9 @@ class FnAnalysis:
         return False
 
     def ret_leaves(self, limit=4096):
-        """Expand the returned value along the merges that produced it: list of (term, State) where State is the
-        state on the edge the value arrived on (so its facts are the path facts of that value)."""
+        """Expand the returned value along the merges that produced it: list of (term, State).  The State carries the
+        environment of the last edge into the return merge (so `read` gives final values of places), the union of the
+        must-facts of every edge chosen while expanding, and `sel` facts that resolve the expanded merges."""
         from .terms import rebuild
         rbs = self.return_blocks()
         if len(rbs) != 1:
@@ -841,31 +856,36 @@ class FnAnalysis:
         st0 = State(self.exit_env[rb], self.exit_facts[rb])
         t0 = self.read(st0, (("L", 0), ()))
         out = []
-        work = [(t0, st0, rb)]
+        work = [(t0, None, st0.facts)]
         while work:
             if len(out) + len(work) > limit:
                 return None
-            t, st, at = work.pop()
+            t, env, facts = work.pop()
             ph = None
             for x in t.subterms():
                 if x.op == "phi" and x.args[0][0] == self.fid and x in self.phi_ops:
                     blk = x.args[0][1]
-                    # only expand merges that dominate the point the value was observed at
+                    if blk in self.loops:
+                        continue
                     if all((p, blk) in self.out_states for p in self.phi_ops[x]):
                         if ph is None or self.rpo_index[blk] > self.rpo_index[ph.args[0][1]]:
                             ph = x
-            if ph is None or ph.args[0][1] in self.loops:
-                out.append((t, st))
+            if ph is None:
+                out.append((t, State(env if env is not None else st0.env, facts)))
                 continue
             blk = ph.args[0][1]
             for p, v in self.phi_ops[ph].items():
                 est = self.out_states[(p, blk)]
-                # all phis of the same merge block are resolved together
                 mp = {}
                 for y in t.subterms():
                     if y.op == "phi" and y.args[0] == ph.args[0] and y in self.phi_ops and p in self.phi_ops[y]:
                         mp[y] = self.phi_ops[y][p]
-                work.append((rebuild(t, mp), est, p))
+                nf = set(facts) | set(est.facts)
+                # every merge value of this block is resolved by the choice of the edge
+                for y, ops in self.phi_ops.items():
+                    if y.args[0] == ph.args[0] and p in ops:
+                        nf.add(("sel", y, ops[p]))
+                work.append((rebuild(t, mp), env if env is not None else est.env, frozenset(nf)))
         return out
 
     def value_at(self, st, lv):
